@@ -297,7 +297,7 @@ func TestVerifReplay(t *testing.T) {
 				if r := recover(); r != nil {
 					st := string(debug.Stack())
 					msg := fmt.Sprintf("panic: %%v", r)
-					if wantPos == "" || strings.Contains(st, wantPos) {
+					if (wantPos == "" || strings.Contains(st, wantPos)) && (os.Getenv("VERIF_KIND") == "" || strings.Contains(msg, os.Getenv("VERIF_KIND"))) {
 						fmt.Printf("VERIF-REPLAY-CONFIRMED input=%%s observed=%%q\n", desc, msg)
 						found = true
 					} else if firstOther == "" {
@@ -411,7 +411,8 @@ func replayOnRealCode(v *Verifier, vi *violation, q *Query, scratch string, seed
 	defer cancel()
 	cmd := exec.CommandContext(ctx, "go", "test", "-tags", "verif", "-overlay", ovFile, "-vet=off", "-timeout", "60s", "-count=1", "-v", "-run", "^TestVerifReplay$", ".")
 	cmd.Dir = pkgDir
-	cmd.Env = append(envNoNet(), "GOFLAGS=-mod=mod", "VERIF_HINTS="+string(hints), "VERIF_POS="+pos)
+	kindMsg := map[string]string{"idx": "index out of range", "slice": "slice bounds out of range", "nil": "nil", "div": "divide by zero", "make": "out of range", "assert": "interface conversion"}[o.Kind]
+	cmd.Env = append(envNoNet(), "GOFLAGS=-mod=mod", "VERIF_HINTS="+string(hints), "VERIF_POS="+pos, "VERIF_KIND="+kindMsg)
 	var out bytes.Buffer
 	cmd.Stdout = &out
 	cmd.Stderr = &out
